@@ -336,7 +336,7 @@ class BinningBase:
             return FixedWidthBinning(
                 min=self.bins[0][0],
                 bin_count=self.bin_count,
-                bin_width=self.bins[1] - self.bins[0],
+                bin_width=self.bins[0][1] - self.bins[0][0],
             )
         else:
             raise ValueError(
